@@ -12,12 +12,13 @@ variable {R : Type} [Add R] [Sub R] [Mul R] [Div R] [Neg R] [IntCast R] (x : Ext
 structure SameAt (n : String) (σ σ' : St R) : Prop where
   sa : σ'.sa.get n = σ.sa.get n
   sv : σ'.sv.get n = σ.sv.get n
+  iv : σ'.iv.get n = σ.iv.get n
   ia : σ'.ia = σ.ia
 
-theorem SameAt.refl (n : String) (σ : St R) : SameAt n σ σ := ⟨rfl, rfl, rfl⟩
+theorem SameAt.refl (n : String) (σ : St R) : SameAt n σ σ := ⟨rfl, rfl, rfl, rfl⟩
 
 theorem SameAt.trans {n : String} {a b c : St R} (h1 : SameAt n a b) (h2 : SameAt n b c) :
-    SameAt n a c := ⟨h2.sa.trans h1.sa, h2.sv.trans h1.sv, h2.ia.trans h1.ia⟩
+    SameAt n a c := ⟨h2.sa.trans h1.sa, h2.sv.trans h1.sv, h2.iv.trans h1.iv, h2.ia.trans h1.ia⟩
 
 theorem store_sameAt (n : String) (σ σ' : St R) (lhs : Expr) (f : R → R)
     (hl : match lhs with | .idx arr _ _ => arr ≠ n | .sym m _ => m ≠ n | _ => True)
@@ -29,7 +30,7 @@ theorem store_sameAt (n : String) (σ σ' : St R) (lhs : Expr) (f : R → R)
     · split at h
       · simp at h
       · simp at h; subst h
-        exact ⟨rfl, by simp [St.setSV, AList.get_set_ne _ _ _ _ hl], rfl⟩
+        exact ⟨rfl, by simp [St.setSV, AList.get_set_ne _ _ _ _ hl], rfl, rfl⟩
   case idx arr dt ix =>
     split at h
     · simp at h
@@ -38,10 +39,10 @@ theorem store_sameAt (n : String) (σ σ' : St R) (lhs : Expr) (f : R → R)
       · split at h
         · simp at h
         · simp at h; subst h
-          exact ⟨by simp [St.setSA, AList.get_set_ne _ _ _ _ hl], rfl, rfl⟩
+          exact ⟨by simp [St.setSA, AList.get_set_ne _ _ _ _ hl], rfl, rfl, rfl⟩
   all_goals simp at h
 
-theorem loopN_sameAt (n : String) (body : St R → Except Err (St R)) (i : String)
+theorem loopN_sameAt (n : String) (body : St R → Except Err (St R)) (i : String) (hi : i ≠ n)
     (hb : ∀ σ σ', body σ = .ok σ' → SameAt n σ σ') :
     ∀ (k : Nat) (lo : Int) (σ σ' : St R), loopN body i lo k σ = .ok σ' → SameAt n σ σ'
   | 0, _, σ, σ', h => by simp [loopN] at h; subst h; exact SameAt.refl n σ
@@ -52,8 +53,9 @@ theorem loopN_sameAt (n : String) (body : St R → Except Err (St R)) (i : Strin
     | ok σ1 =>
       simp [hb1] at h
       have h1 := hb _ _ hb1
-      have h2 := loopN_sameAt n body i hb k (lo + 1) σ1 σ' h
-      have h0 : SameAt n σ (σ.setIV i lo) := ⟨rfl, rfl, rfl⟩
+      have h2 := loopN_sameAt n body i hi hb k (lo + 1) σ1 σ' h
+      have h0 : SameAt n σ (σ.setIV i lo) :=
+        ⟨rfl, rfl, by simp [St.setIV, AList.get_set_ne _ _ _ _ hi], rfl⟩
       exact (h0.trans h1).trans h2
 
 mutual
@@ -76,11 +78,12 @@ theorem exec_sameAt (n : String) : ∀ (s : Stmt) (σ σ' : St R), neverWritten 
     simp only [exec] at h
     split at h
     · split at h
-      · simp at h; subst h; exact ⟨rfl, rfl, rfl⟩
+      · simp at h; subst h
+        exact ⟨rfl, rfl, by simp [St.setIV, AList.get_set_ne _ _ _ _ hs], rfl⟩
       · simp at h
     · split at h
       · simp at h; subst h
-        exact ⟨rfl, by simp [St.setSV, AList.get_set_ne _ _ _ _ hs], rfl⟩
+        exact ⟨rfl, by simp [St.setSV, AList.get_set_ne _ _ _ _ hs], rfl, rfl⟩
       · simp at h
   | .adecl m dt sizes c vals, σ, σ', hs, h => by
     simp [neverWritten] at hs
@@ -88,12 +91,12 @@ theorem exec_sameAt (n : String) : ∀ (s : Stmt) (σ σ' : St R), neverWritten 
     split at h
     · simp at h
     · simp at h; subst h
-      exact ⟨by simp [St.setSA, AList.get_set_ne _ _ _ _ hs], rfl, rfl⟩
+      exact ⟨by simp [St.setSA, AList.get_set_ne _ _ _ _ hs], rfl, rfl, rfl⟩
   | .forRange i lo hi body, σ, σ', hs, h => by
     simp [neverWritten] at hs
     simp only [exec] at h
     split at h
-    · exact loopN_sameAt n _ i (fun a b hab => execL_sameAt n body a b hs.2 hab) _ _ σ σ' h
+    · exact loopN_sameAt n _ i hs.1 (fun a b hab => execL_sameAt n body a b hs.2 hab) _ _ σ σ' h
     · simp at h
   | .comment _, σ, σ', _, h => by simp [exec] at h; subst h; exact SameAt.refl n σ
   | .block ss, σ, σ', hs, h => by
